@@ -155,6 +155,8 @@ def build_task(job):
         data["delay"] = job["delay"]
     if job.get("scribble"):
         data["scribble"] = True
+    if job.get("nested"):
+        data["nested"] = True
     if job.get("derive_from"):
         # a task derived from an already USED task of the same shape (model_copy keeps pydantic private state): multi-step history
         base = gen.make_task(job["derive_from"], job["objective"], data=dict(data), **kw)
